@@ -1,4 +1,65 @@
-#!/bin/sh
-# Thorough tier: same rules plus the extra passes described in DESIGN.md section 3.3.
+#!/bin/bash
+# Thorough tier for one property: (1) the property's rules on /repo's current working tree - this
+# alone decides the exit status; (2) self-test of the check on scratch copies of the *current* tree:
+# every kept seeded change of the property must add a violation, every kept behaviour-preserving
+# refactoring of the property must add none. The self-test is reported (stdout, evidence/selftest)
+# but never changes the exit status: it speaks about the checker, not about /repo.
 export GOFLAGS=-mod=mod GOPROXY=off GOSUMDB=off GOTOOLCHAIN=local GOWORK=off
-exec /verif/bin/verifchk check "$1" --tier thorough
+id=$1
+[ -x /verif/bin/verifchk ] || /verif/tools/setup.sh >/dev/null 2>&1
+/verif/bin/verifchk check "$id" --tier thorough
+rc=$?
+[ -n "$VERIF_NO_SELFTEST" ] && exit $rc
+
+tmp=$(mktemp -d "${TMPDIR:-/tmp}/verif_thorough_${id}_XXXXXX") || exit $rc
+trap 'rm -rf "$tmp"' EXIT
+mkdir -p "$tmp/tree" "$tmp/v"
+# the current working tree without git metadata and without anything ignored by the build
+(cd /repo && tar --exclude=.git -cf - go.mod go.sum server pbx 2>/dev/null) | tar -xf - -C "$tmp/tree"
+cp /verif/known_findings.json "$tmp/v/"
+viol() { /verif/bin/verifchk check "$id" --repo "$tmp/tree" --verif "$tmp/v" 2>&1 | grep "^VIOLATION rule" | sed 's/ at [^ ]*:[0-9]*:/ :/' | sort -u; }
+viol > "$tmp/base.txt"
+applied=0; skipped=0; sd=0; sm=0; rs=0; ra=0; lines=""
+try() { # $1 patch  -> 0 applied, 1 not
+  (cd "$tmp/tree" && git apply --whitespace=nowarn "$1" 2>/dev/null) || return 1
+  if ! (cd "$tmp/tree/server" && go build ./... >/dev/null 2>&1); then (cd "$tmp/tree" && git apply -R "$1" 2>/dev/null); return 1; fi
+  return 0
+}
+for d in /verif/seeded/${id}_*/; do
+  [ -f "$d/patch.diff" ] || continue
+  name=$(basename "$d")
+  expect=$(python3 -c "import json,sys; print(json.load(open('$d/meta.json')).get('checker_result','detected'))" 2>/dev/null)
+  if try "$d/patch.diff"; then
+    applied=$((applied+1)); viol > "$tmp/cur.txt"
+    new=$(comm -13 "$tmp/base.txt" "$tmp/cur.txt" | wc -l)
+    if [ "$new" -gt 0 ]; then sd=$((sd+1)); lines="$lines\nSELFTEST seed $name: detected ($new new violation(s))";
+    elif [ "$expect" = "missed" ]; then lines="$lines\nSELFTEST seed $name: not detected (recorded as outside what the check decides)";
+    else sm=$((sm+1)); lines="$lines\nSELFTEST seed $name: NOT DETECTED"; fi
+    (cd "$tmp/tree" && git apply -R "$d/patch.diff" 2>/dev/null)
+  else skipped=$((skipped+1)); lines="$lines\nSELFTEST seed $name: skipped (does not apply to / build on the current tree)"; fi
+done
+for d in /verif/refactors/r${id}_*/; do
+  [ -f "$d/patch.diff" ] || continue
+  name=$(basename "$d")
+  if try "$d/patch.diff"; then
+    applied=$((applied+1)); viol > "$tmp/cur.txt"
+    new=$(comm -13 "$tmp/base.txt" "$tmp/cur.txt" | wc -l)
+    if [ "$new" -eq 0 ]; then rs=$((rs+1)); lines="$lines\nSELFTEST refactoring $name: silent";
+    else ra=$((ra+1)); lines="$lines\nSELFTEST refactoring $name: ALARM ($new new violation(s))"; fi
+    (cd "$tmp/tree" && git apply -R "$d/patch.diff" 2>/dev/null)
+  else skipped=$((skipped+1)); lines="$lines\nSELFTEST refactoring $name: skipped (does not apply to / build on the current tree)"; fi
+done
+printf "$lines\n" | sed '/^$/d'
+echo "SELFTEST $id variants_applied=$applied seeds_detected=$sd seeds_missed=$sm refactorings_silent=$rs refactorings_alarmed=$ra skipped=$skipped"
+python3 - "$id" "$applied" "$sd" "$sm" "$rs" "$ra" "$skipped" <<'PY'
+import json,sys
+id,applied,sd,sm,rs,ra,sk=sys.argv[1:8]
+p='/verif/evidence/%s.json'%id
+try:
+    e=json.load(open(p))
+    e.setdefault('coverage',{})['selftest']={'variants_applied':int(applied),'seeded_changes_detected':int(sd),'seeded_changes_missed':int(sm),'refactorings_silent':int(rs),'refactorings_alarmed':int(ra),'skipped':int(sk),'note':'scratch copies of the current tree; does not affect the verdict'}
+    json.dump(e,open(p,'w'),indent=1)
+except Exception as ex:
+    print('selftest: evidence not updated:',ex)
+PY
+exit $rc
